@@ -175,6 +175,12 @@ pub open spec fn funds_of(funds: Seq<Coin>, denom: Seq<char>) -> nat decreases f
     }
 }
 
+/// D5 target: `funds.iter().filter(|c| c.denom == denom).map(|c| c.amount).sum::<Uint128>()`
+/// (Uint128's Sum folds with `+`, which aborts on overflow)
+#[verifier::external_body]
+pub fn verif_sum_funds(funds: &Vec<Coin>, denom: &String) -> (r: Uint128)
+    requires funds_of(funds@, denom@) < POW128
+    ensures r@ == funds_of(funds@, denom@) { unimplemented!() }
 // ---------- querier ----------
 pub struct QuerierWrapper { pub id: Ghost<int> }
 impl Clone for QuerierWrapper { #[verifier::external_body] fn clone(&self) -> (r: Self) ensures r == *self { unimplemented!() } }
